@@ -60,6 +60,9 @@ func hoisted(c Cmd) bool {
 
 func (s *Sess) scriptPrefix(upto int) string {
 	var sb strings.Builder
+	if s.absStr {
+		sb.WriteString(";abs\n")
+	}
 	sb.WriteString(s.header())
 	for i := 0; i < upto && i < len(s.cmds); i++ {
 		c := s.cmds[i]
@@ -83,6 +86,9 @@ func (s *Sess) scriptPrefix(upto int) string {
 
 func (s *Sess) incrementalScript(timeoutMs int) string {
 	var sb strings.Builder
+	if s.absStr {
+		sb.WriteString(";abs\n")
+	}
 	fmt.Fprintf(&sb, "(set-option :timeout %d)\n", timeoutMs)
 	sb.WriteString(s.header())
 	for _, c := range s.cmds {
@@ -106,6 +112,10 @@ func (s *Sess) incrementalScript(timeoutMs int) string {
 
 func runSolver(ctx context.Context, solver string, script string, timeoutS int) (string, string, float64) {
 	t0 := time.Now()
+	script = selectVariant(script, solver != "cvc5")
+	if strings.HasPrefix(script, ";abs\n") {
+		script = abstractStrings(script)
+	}
 	var cmd *exec.Cmd
 	switch solver {
 	case "z3-new":
@@ -113,7 +123,7 @@ func runSolver(ctx context.Context, solver string, script string, timeoutS int) 
 	case "z3":
 		cmd = exec.CommandContext(ctx, "z3", "-in", fmt.Sprintf("-T:%d", timeoutS))
 	case "cvc5":
-		cmd = exec.CommandContext(ctx, "cvc5", "--lang=smt2", fmt.Sprintf("--tlimit=%d", timeoutS*1000), "--produce-models")
+		cmd = exec.CommandContext(ctx, "cvc5", "--lang=smt2", "--strings-exp", fmt.Sprintf("--tlimit=%d", timeoutS*1000), "--produce-models")
 	}
 	cmd.Stdin = strings.NewReader(script)
 	var out, errb bytes.Buffer
@@ -148,13 +158,17 @@ func solveSession(s *Sess, cfg SolverCfg) {
 		var out string
 		var dt float64
 		if solver == "cvc5" {
+			sc = selectVariant(sc, false)
+			if strings.HasPrefix(sc, ";abs\n") {
+				sc = abstractStrings(sc)
+			}
 			sc = strings.Replace(sc, "(set-option :produce-models true)\n", "", 1)
 			sc = strings.Replace(sc, fmt.Sprintf("(set-option :timeout %d)\n", cfg.QuickTimeoutMs), "", 1)
 			if i := strings.Index(sc, "(set-option :timeout 1500)\n"); i >= 0 {
 				sc = sc[:i] + "(echo \"unknown\")\n"
 			}
 			t0 := time.Now()
-			cmd := exec.CommandContext(ctx, "cvc5", "--lang=smt2", "--incremental", fmt.Sprintf("--tlimit-per=%d", cfg.QuickTimeoutMs), fmt.Sprintf("--tlimit=%d", cfg.QuickTimeoutMs*len(s.obs)+30000))
+			cmd := exec.CommandContext(ctx, "cvc5", "--lang=smt2", "--incremental", "--strings-exp", fmt.Sprintf("--tlimit-per=%d", cfg.QuickTimeoutMs), fmt.Sprintf("--tlimit=%d", cfg.QuickTimeoutMs*len(s.obs)+30000))
 			cmd.Stdin = strings.NewReader(sc)
 			var ob bytes.Buffer
 			cmd.Stdout = &ob
@@ -231,7 +245,11 @@ func raceObligation(s *Sess, ob *Obligation, cfg SolverCfg) {
 			q := query
 			svName := sv
 			if sv == "z3-new/noauto" {
-				q = "(set-option :auto_config false)\n" + q
+				if strings.HasPrefix(q, ";abs\n") {
+					q = ";abs\n(set-option :auto_config false)\n" + strings.TrimPrefix(q, ";abs\n")
+				} else {
+					q = "(set-option :auto_config false)\n" + q
+				}
 				sv = "z3-new"
 			}
 			if sv != "cvc5" {
@@ -511,4 +529,25 @@ func (e *Engine) pathSplit(fn *ssa.Function, s *Sess, dead map[string]bool, cfg 
 			s.obs[i].Model = ""
 		}
 	}
+}
+
+// selectVariant picks, for lines of the form "<quantified form> ;@lambda <z3 lambda form>", the
+// form the solver supports (z3 accepts lambda-defined arrays, which avoids quantifier instantiation).
+func selectVariant(script string, lambda bool) string {
+	if !strings.Contains(script, ";@lambda ") {
+		return script
+	}
+	lines := strings.Split(script, "\n")
+	for i, l := range lines {
+		j := strings.Index(l, ";@lambda ")
+		if j < 0 {
+			continue
+		}
+		if lambda {
+			lines[i] = l[j+len(";@lambda "):]
+		} else {
+			lines[i] = strings.TrimSpace(l[:j])
+		}
+	}
+	return strings.Join(lines, "\n")
 }
